@@ -231,6 +231,16 @@ func c09Prior(r *prng.Rand, p int, n int, ev *elemView) *elemState {
 		st.iei = r.Byte()
 		st.ln = uint16(r.Uint32())
 		r.Fill(st.data)
+		// the first octet usually carries the selector bits of the element (type of
+		// identity, type of list, unit): walk its low and high nibble through all values
+		if len(st.data) > 0 {
+			switch {
+			case p >= 2 && p < 18:
+				st.data[0] = st.data[0]&0xf0 | byte(p-2)
+			case p >= 18 && p < 34:
+				st.data[0] = st.data[0]&0x0f | byte(p-18)<<4
+			}
+		}
 	}
 	if ev.ln.IsValid() && ev.ln.Kind() == reflect.Uint8 {
 		st.ln &= 0xff
@@ -411,10 +421,19 @@ func c09Field(c *core.Ctx, k *core.Case) {
 			if !stateEq(prior, &after, false) {
 				fail("getter-mutates", fmt.Sprintf("Get%s changed the element: {%s} -> {%s}", field, prior, &after))
 			}
-			for i := int64(0); i < (vHi-vLo)/vStep; i++ {
-				val := r.Pattern(int(i)+3, fw)
+			dict := dictOfWidth(fw)
+			if len(dict) > 16 {
+				dict = dict[:16]
+			}
+			for i := int64(-int64(len(dict))); i < (vHi-vLo)/vStep; i++ {
+				var val []byte
+				if i < 0 {
+					val = cloneB(dict[-i-1]) // spec-defined special values and literals of the tree
+				} else {
+					val = r.Pattern(int(i)+3, fw)
+				}
 				vl := fw
-				if isSlice && i%3 == 2 && fw > 0 {
+				if isSlice && i >= 0 && i%3 == 2 && fw > 0 {
 					vl = r.Intn(fw) // shorter value: only a prefix of the field may change
 					val = val[:vl]
 				}
@@ -612,6 +631,7 @@ func init() {
 					}
 				default:
 					hi = int64(c.Pick(24, 256))
+					nPri = c.Pick(36, 64)
 				}
 				extras := []int{0, 1, 7}
 				ctor := reg.IETypes[fl.Type]
